@@ -60,24 +60,29 @@ def bitLength (n : Nat) : Nat := if n = 0 then 0 else Nat.log2 n + 1
 /-- `(generator.p().bit_length() + 7) >> 3` -/
 def byteCount (c : CurveParams) : Nat := (bitLength c.p + 7) >>> 3
 
-/-- `sec_to_public_pair(sec, generator, strict)` -/
+/-- `sec_to_public_pair(sec, generator, strict)`.  Coordinates that are not below `generator.p()` are refused
+with `EncodingError` (both modes). -/
 def secToPublicPair (c : CurveParams) (sec : Bytes) (strict : Bool) : Except Err (Int × Int) :=
   let bc := byteCount c
   let x := fromBytes32 (slice sec 1 (1 + bc))
   let sec0 := sec.take 1
   if sec.length = 1 + bc * 2 then
     let isok := sec0 = [4] ∨ (¬ strict ∧ (sec0 = [6] ∨ sec0 = [7]))
-    if isok then .ok (x, fromBytes32 (slice sec (1 + bc) (1 + 2 * bc)))
+    if isok then
+      let y := fromBytes32 (slice sec (1 + bc) (1 + 2 * bc))
+      if x ≥ c.p ∨ y ≥ c.p then .error .encodingError else .ok (x, y)
     else .error .encodingError
   else if sec.length = 1 + bc then
     if ¬ strict ∨ sec0 = [2] ∨ sec0 = [3] then
-      let isYOdd := sec0 ≠ [2]
-      match Curve.pointsForX c x with
-      | .error e => .error (.curve e)
-      | .ok (p0, p1) =>
-        match (if isYOdd then p1 else p0) with
-        | some P => .ok P
-        | none => .error .typeError     -- unreachable: `points_for_x` builds both entries with `self.Point(x, y)`
+      if x ≥ c.p then .error .encodingError
+      else
+        let isYOdd := sec0 ≠ [2]
+        match Curve.pointsForX c x with
+        | .error e => .error (.curve e)
+        | .ok (p0, p1) =>
+          match (if isYOdd then p1 else p0) with
+          | some P => .ok P
+          | none => .error .typeError     -- unreachable: `points_for_x` builds both entries with `self.Point(x, y)`
     else .error .encodingError
   else .error .encodingError
 
